@@ -256,6 +256,12 @@ def run(ck, m):
     fu = m.get(CM, "BaseImage.from_url")
     ctor = next((s for s in body_walk(fu) if isinstance(s, ast.Assign) and norm(s.targets[0]) == "new" and isinstance(s.value, ast.Call) and norm(s.value.func) == "cls"), None)
     mk = next((s for s in body_walk(fu) if isinstance(s, ast.Assign) and isinstance(s.value, ast.Call) and call_name(s.value) == "mkstemp"), None)
+    if ctor is not None and mk is None:
+        named = [c for c in body_walk(fu) if isinstance(c, ast.Call) and (call_name(c) or "") in ("os.path.join", "os.open", "open") and "_TEMP_DIR" in norm(c)]
+        ck.ob("R5", enclosing_stmt(named[0]) if named else fu, False,
+              "from_url no longer creates the temporary copy with mkstemp(): a name derived from anything but a fresh unique file (URL, basename, hash ...) is shared by two live images of the same "
+              "source, so closing one removes the backing copy of the other - and a failed construction can delete a file it does not own", stmt="from_url: temporary copy is a fresh unique file (mkstemp)")
+        return
     ck.need(ctor is not None and mk is not None, "from_url: constructor call / mkstemp not found")
     g = CFG(fu)
     cn, mn = g.nodes_of(ctor), g.nodes_of(mk)
